@@ -46,6 +46,11 @@ def reader_candidates(o, seed):
 def complete_candidates(o, seed):
     from spec import streams
     rnd = random.Random(seed)
+    # a UBX frame whose 16-bit length has its top bit set, followed by a frame that must still be returned
+    big = streams.ubx(1, 2, bytes(rnd.randrange(1, 255) for _ in range(40000)).replace(b"\xd3", b"\x01").replace(b"\xb5", b"\x01").replace(b"$", b"\x01"))
+    f = streams.frame(streams.P1005)
+    for q in (0, 1):
+        yield {"items": [["ubx", big.hex()], ["rtcm", f.hex()]], "quitonerror": q, "validate": 1, "parsed": True, "handler": True}
     for i in range(500):
         items = streams.wellformed_stream(rnd, kinds=("rtcm", "rtcm", "filler", "ubx", "nmea", "noise", "rtcm1"))
         out = []
